@@ -8,7 +8,9 @@ integrals, or with the closed form for quadratic forms in 2-D.
 """
 from __future__ import annotations
 
+import copy
 import math
+import pickle
 
 import numpy as np
 
@@ -27,10 +29,10 @@ ASSUMPTIONS = [
     "geometry from the edge/mid-point error analysis with a safety factor 10); 2-D: increment error <= 0.35/nr^2",
     "convergence is observed on three refinements, not in the limit",
 ]
-REQUIRED_MONITORS = ["pinhole_converges", "slit_length_converges", "slit_width_converges", "slit_both_converges", "pinhole2d_increment"]
+REQUIRED_MONITORS = ["pinhole_converges", "slit_length_converges", "slit_width_converges", "slit_both_converges", "pinhole2d_increment", "copied_calculator_converges"]
 REQUIRED_BUCKETS = {"quick": ["geom:pinhole", "geom:slit(L,0)", "geom:slit(0,W)", "geom:slit(L,W)", "geom:2d",
                               "f:poly", "f:lorentz2", "f:dampedcos", "window_crosses_zero", "acc:low", "acc:med",
-                              "acc:high", "acc:xhigh", "q<W", "sigma:interior-point-widest", "pixel_on_axis", "q_calc:without-data-points", "pixel_with_one_zero_width"]}
+                              "acc:high", "acc:xhigh", "q<W", "sigma:interior-point-widest", "pixel_on_axis", "q_calc:without-data-points", "pixel_with_one_zero_width", "coordinates_rewritten_after_construction", "calculator:copy", "calculator:deepcopy", "calculator:pickle"]}
 REQUIRED_BUCKETS["thorough"] = REQUIRED_BUCKETS["quick"]
 
 
@@ -134,6 +136,7 @@ def run_1d(case, rec):
     include_q = not ((case["k"]//10) % 2 == 0 and geom in ("pinhole", "slit(L,0)"))
     rec.bucket("q_calc:contains-data-points" if include_q else "q_calc:without-data-points")
     errs = []
+    errs_copy = []
     unsmeared = f(q)
     S = None
     for mult in (4, 2, 1):
@@ -168,6 +171,12 @@ def run_1d(case, rec):
         res.apply(2.0*f(res.q_calc) + 1.0)
         res.apply(np.ones(len(res.q_calc)))
         held.verify(rec, {"geometry": geom, "h_multiple": mult})
+        # the calculator as it arrives elsewhere (copied, or pickled to a fit worker) is the same calculator
+        how = ["copy", "deepcopy", "pickle"][(case["k"] + mult) % 3]
+        res2 = copy.copy(res) if how == "copy" else copy.deepcopy(res) if how == "deepcopy" else pickle.loads(pickle.dumps(res))
+        got2 = res2.apply(np.ascontiguousarray(f(res2.q_calc), float))
+        errs_copy.append((how, np.abs(got2 - exact)))
+        rec.bucket("calculator:" + how)
         if S is None:
             # variation of I over the widest window
             xs = np.linspace(max(lo, 0.0), hi, 400)
@@ -218,6 +227,14 @@ def run_1d(case, rec):
     rec.check(monitor, ok, None if ok else {"geometry": geom, "function": fdesc, "q": q, "widths": desc, "h": h0,
                                            "errors_4h_2h_h": [e.tolist() for e in errs], "bound_at_h": K*(h0/width)*S,
                                            "exact": exact, "worst_err_over_bound": worst}, key=key)
+    if ok:
+        okc = True
+        for mult, (how, e) in zip((4, 2, 1), errs_copy):
+            okc &= bool(np.all(e <= K*(h0*mult/width)*S))
+        rec.check("copied_calculator_converges", okc,
+                  None if okc else {"geometry": geom, "function": fdesc, "q": q, "widths": desc, "h": h0,
+                                    "copies": [h_ for h_, _ in errs_copy], "errors_4h_2h_h": [e.tolist() for _, e in errs_copy],
+                                    "original_errors_4h_2h_h": [e.tolist() for e in errs], "bound_at_h": K*(h0/width)*S})
     smear = float(np.max(np.abs(exact - unsmeared)))
     rec.set_shape((geom, fam, round(math.log10(width/q0), 1), round(h0/width, 4)),
                   nontrivial=smear > 100*K*(h0/width)*S)
@@ -256,6 +273,18 @@ def run_2d(case, rec):
         st = np.where(which == 2, 0.0, st)
         rec.bucket("pixel_with_one_zero_width")
     d.dqx_data, d.dqy_data = sr.copy(), st.copy()
+    if case["k"] % 2 == 1:
+        # a data object whose coordinates were rewritten after it was made (unit conversion 1/nm -> 1/A, beam
+        # centre correction): the calculator is built from the coordinates the object holds now
+        from sasmodels import data as sdata
+        real = sdata.Data2D(x=10.0*d.qx_data, y=10.0*d.qy_data, z=np.zeros(n), dx=10.0*sr, dy=10.0*st)
+        real.qx_data = real.qx_data/10.0
+        real.qy_data = real.qy_data/10.0
+        real.dqx_data = sr.copy()
+        real.dqy_data = st.copy()
+        d.qx_data, d.qy_data = np.array(real.qx_data), np.array(real.qy_data)
+        d = real
+        rec.bucket("coordinates_rewritten_after_construction")
     a, b, c, dd = rng.uniform(-2, 2, 4)
     f = lambda x, y: a*x*x + b*x*y + c*y*y + dd
     rec.bucket("geom:2d")
